@@ -39,6 +39,16 @@ def run(tier, seed, rep):
     thorough = tier == "thorough"
     r = core.model_check("MC_Sweep", "MC_Sweep_thorough.cfg" if thorough else "MC_Sweep.cfg", workers=8)
     rep.add_mc("MC_Sweep (two-pointer sweep machine refines Window)", r)
+    # the same machine, symbolically: IndInv (which contains Refines) is an inductive invariant for lists of <= 3 / <= 4
+    # integers of ANY size and any tolerance >= 0 (Apalache); two probes show that the induction hypothesis is not vacuous
+    t0 = __import__("time").time()
+    core.apalache("Apa_Sweep", "ApaInit", "IndInv", 0)
+    core.apalache("Apa_Sweep", "IndInit", "IndInv", 1)
+    core.apalache("Apa_Sweep", "IndInit", "ProbeNeverHi", 0, expect_error=True)
+    core.apalache("Apa_Sweep", "IndInit", "ProbeNeverTwoWindows", 0, expect_error=True)
+    rep.mc_runs.append(dict(model="Apa_Sweep (Apalache: Init => IndInv; IndInv /\\ Next => IndInv'; IndInv => Refines; "
+                                  "unbounded integer values)", states_generated=0, distinct_states=0,
+                            wall_s=round(__import__("time").time() - t0, 1)))
     evs = []
     N = 40000 if thorough else 5000
     for i in range(N):
